@@ -64,6 +64,32 @@ def _modname(f: Path) -> str:
     return ".".join(parts) if parts else "primaite"
 
 
+MEMO_DECORATORS = {"lru_cache", "cache"}
+IMMUTABLE_CALLS = {"tuple", "frozenset", "str", "int", "float", "bool", "bytes", "len", "sum", "min", "max", "abs", "round", "hash", "repr",
+                   "IPv4Address", "IPv4Network", "ip_address", "ip_network"}
+
+
+def _immutable_expr(e: Optional[ast.AST]) -> bool:
+    """syntactically an immutable value: constants, tuples of such, f-strings, comparisons / arithmetic / boolean tests, calls of the
+    immutable constructors; ANYTHING else (list / dict / set displays and comprehensions, other calls, names) counts as mutable"""
+    if e is None or isinstance(e, (ast.Constant, ast.JoinedStr, ast.Compare)):
+        return True
+    if isinstance(e, ast.Tuple):
+        return all(_immutable_expr(x) for x in e.elts)
+    if isinstance(e, (ast.BinOp,)):
+        return _immutable_expr(e.left) and _immutable_expr(e.right)
+    if isinstance(e, ast.UnaryOp):
+        return _immutable_expr(e.operand)
+    if isinstance(e, ast.BoolOp):
+        return all(_immutable_expr(x) for x in e.values)
+    if isinstance(e, ast.IfExp):
+        return _immutable_expr(e.body) and _immutable_expr(e.orelse)
+    if isinstance(e, ast.Call):
+        nm = e.func.id if isinstance(e.func, ast.Name) else e.func.attr if isinstance(e.func, ast.Attribute) else ""
+        return nm in IMMUTABLE_CALLS
+    return False
+
+
 def _is_mutable_value(v: Optional[ast.AST]) -> Optional[str]:
     """kind of mutable value, or None for something immutable / not a value."""
     if v is None:
@@ -148,6 +174,8 @@ class Inventory:
         self.reach: List[dict] = []                  # static call graph before the write (see reach_before_write)
         self.dynamic_writes: List[Tuple[str, str]] = []   # setattr / __dict__ writes on a class-like receiver with a non-literal name
         self.callgraph = None
+        self.memo: List[Tuple[str, str, bool, List[str]]] = []   # (function, decorator, every return expression immutable, the return expressions)
+        self.cached_props: List[str] = []                         # functools.cached_property: per INSTANCE (stored in the instance dict)
 
     def entry(self, name: str, kind: str, mutable: bool, how: str):
         e = self.entries.setdefault(name, {"kind": kind, "mutable": mutable, "import_writes": [], "writers": set(), "readers": set(),
@@ -445,6 +473,57 @@ def build() -> Inventory:
                 elif isinstance(n, (ast.If, ast.Try, ast.With, ast.For, ast.While)):
                     visit_r([x for x in ast.iter_child_nodes(n) if isinstance(x, ast.stmt)], qual_prefix, cls_stack)
         visit_r(m.tree.body, "", [])
+    # ---- pass 3b: MEMOISATION DECORATORS are process-global mutable state: every function decorated with functools.lru_cache / cache (any
+    # import spelling, called or bare) is an inventory entry — a cache written and read by its callers at run time. Its return expressions
+    # are classified syntactically: immutable (tuple / frozenset / str / int / … / constants) or not (anything else counts as mutable).
+    memo_names: Dict[str, str] = {}
+    for m in mods:
+        alias = {}
+        for n in ast.walk(m.tree):
+            if isinstance(n, ast.ImportFrom) and n.module == "functools":
+                for a in n.names:
+                    alias[a.asname or a.name] = a.name
+
+        def visit_m(body, prefix: str):
+            for n in body:
+                if isinstance(n, ast.ClassDef):
+                    visit_m(n.body, prefix + n.name + ".")
+                elif isinstance(n, (ast.FunctionDef, ast.AsyncFunctionDef)):
+                    for d in n.decorator_list:
+                        core = d.func if isinstance(d, ast.Call) else d
+                        nm = core.attr if isinstance(core, ast.Attribute) else core.id if isinstance(core, ast.Name) else ""
+                        nm = alias.get(nm, nm)
+                        if nm in MEMO_DECORATORS:
+                            q = f"{m.name}:{prefix}{n.name}"
+                            rets = [r.value for r in _walk_same_scope(n) if isinstance(r, ast.Return)]
+                            imm = bool(rets) and all(_immutable_expr(r) for r in rets)
+                            inv.memo.append((q, nm, imm, [ast.unparse(r)[:60] if r is not None else "None" for r in rets]))
+                            memo_names[n.name] = q
+                        elif nm == "cached_property":
+                            inv.cached_props.append(f"{m.name}:{prefix}{n.name}")
+                    visit_m(n.body, prefix + n.name + ".")
+                elif isinstance(n, (ast.If, ast.Try, ast.With, ast.For, ast.While)):
+                    visit_m([x for x in ast.iter_child_nodes(n) if isinstance(x, ast.stmt)], prefix)
+        visit_m(m.tree.body, "")
+    if memo_names:
+        for m in mods:
+            def visit_c(body, prefix: str):
+                for n in body:
+                    if isinstance(n, ast.ClassDef):
+                        visit_c(n.body, prefix + n.name + ".")
+                    elif isinstance(n, (ast.FunctionDef, ast.AsyncFunctionDef)):
+                        fq = f"{m.name}:{prefix}{n.name}"
+                        for x in ast.walk(n):
+                            if isinstance(x, ast.Call):
+                                nm = x.func.id if isinstance(x.func, ast.Name) else x.func.attr if isinstance(x.func, ast.Attribute) else ""
+                                if nm in memo_names and fq != memo_names[nm]:
+                                    e = inv.entry(memo_names[nm] + ".<memo cache>", "memo-cache", True, "decorator")
+                                    e["writers"].add(fq)
+                                    e["readers"].add(fq)
+                        visit_c(n.body, prefix + n.name + ".")
+                    elif isinstance(n, (ast.If, ast.Try, ast.With, ast.For, ast.While)):
+                        visit_c([x for x in ast.iter_child_nodes(n) if isinstance(x, ast.stmt)], prefix)
+            visit_c(m.tree.body, "")
     # ---- pass 4: static call graph: what can run before from_config's write; which writers run whenever from_config runs
     inv.reach = reach_before_write(inv, mods, classes)
     always = inv.callgraph.unconditional_closure(ANCHOR) if inv.callgraph is not None else set()
@@ -915,6 +994,12 @@ def emit() -> str:
               "def reachBeforeWrite : List (String × String × List String × Nat × List Nat × Bool) := ["]
     lines.append(",\n".join(f"  ({_s(r['entry'])}, {_s(r['op'])}, {_l(r['calls'])}, {len(r['reached'])}, {ids(r['readers'])}, {'true' if r['truncated'] else 'false'})"
                             for r in inv.reach) + "]")
+    lines += ["", "/-- functions decorated with functools.lru_cache / functools.cache (process-global caches): (function, decorator, whether EVERY return",
+              "expression is syntactically immutable, the return expressions) -/",
+              "def memoFunctions : List (String × String × Bool × List String) := [" +
+              ", ".join(f"({_s(q)}, {_s(d)}, {'true' if imm else 'false'}, {_l(r)})" for q, d, imm, r in sorted(inv.memo)) + "]",
+              "/-- functools.cached_property sites (cached per INSTANCE, in the instance's own dict) -/",
+              "def cachedProperties : List String := " + _l(sorted(inv.cached_props))]
     lines += ["", "/-- `setattr(<class>, <non-literal name>, …)` sites: writes the inventory cannot attribute -/",
               "def dynamicClassWrites : List (String × String) := [" + ", ".join(f"({_s(f)}, {_s(c)})" for f, c in sorted(set(inv.dynamic_writes))) + "]"]
     lines += ["", "/-- the last identifier (function / method name) of every entry of `fns`, same order -/",
